@@ -4,6 +4,7 @@ package main
 // declarations, assumptions, obligations, sorts, heap arrays.
 
 import (
+	"sync"
 	"fmt"
 	"regexp"
 	"go/token"
@@ -30,6 +31,7 @@ type Obligation struct {
 	Text      string // human readable description (spec text or instruction)
 
 	TimeoutS int // per-obligation solver limit (0 = default)
+	Block    *ssa.BasicBlock // block of the function under verification at which it arises
 
 	// filled by the solver stage
 	Result  string // unsat | sat | unknown | timeout | error
@@ -73,6 +75,13 @@ type Gen struct {
 	readLog    map[string]bool
 	specReadCache map[*Pred][]string
 	inSpecReads   map[*Pred]bool
+	implIfaces    map[string]types.Type
+	boundSorts    map[string]Sort
+	assertOrigin  []*ssa.BasicBlock
+	curTopBlock   *ssa.BasicBlock
+	globalMode    int
+	reachCache    map[*ssa.BasicBlock]map[*ssa.BasicBlock]bool
+	reachMu       sync.Mutex
 	degraded      []string // reasons why the contract no longer fits the function's structure
 }
 
@@ -138,10 +147,57 @@ func (g *Gen) assert(s string) {
 		return
 	}
 	g.asserts = append(g.asserts, s)
+	// origin: the block of the function under verification that was being executed; facts
+	// emitted once for the whole function (axiom instances, lemmas, type facts) have none
+	if g.globalMode > 0 {
+		g.assertOrigin = append(g.assertOrigin, nil)
+	} else {
+		g.assertOrigin = append(g.assertOrigin, g.curTopBlock)
+	}
+}
+
+// sortedArrNames: the registered heap arrays in a fixed order.
+func (g *Gen) sortedArrNames() []string {
+	var ks []string
+	for k := range g.arrReg {
+		ks = append(ks, k)
+	}
+	sort.Strings(ks)
+	return ks
+}
+
+// reaches: control can flow from block a to block b (back edges included).
+func (g *Gen) reaches(a, b *ssa.BasicBlock) bool {
+	if a == b {
+		return true
+	}
+	g.reachMu.Lock()
+	defer g.reachMu.Unlock()
+	if g.reachCache == nil {
+		g.reachCache = map[*ssa.BasicBlock]map[*ssa.BasicBlock]bool{}
+	}
+	m, ok := g.reachCache[a]
+	if !ok {
+		m = map[*ssa.BasicBlock]bool{}
+		stack := []*ssa.BasicBlock{a}
+		for len(stack) > 0 {
+			x := stack[len(stack)-1]
+			stack = stack[:len(stack)-1]
+			for _, sc := range x.Succs {
+				if !m[sc] {
+					m[sc] = true
+					stack = append(stack, sc)
+				}
+			}
+		}
+		g.reachCache[a] = m
+	}
+	return m[b]
 }
 
 func (g *Gen) addObl(o *Obligation) {
 	o.NAsserts = len(g.asserts)
+	o.Block = g.curTopBlock
 	// unique names: append #n when the same name is generated again
 	base := o.Name
 	g.oblNames[base]++
@@ -310,7 +366,54 @@ func (g *Gen) typeTag(t types.Type) string {
 	n := len(g.tags) + 1
 	g.tags[k] = n
 	g.tagTypes = append(g.tagTypes, t)
+	var inames []string
+	for name := range g.implIfaces {
+		inames = append(inames, name)
+	}
+	sort.Strings(inames)
+	for _, name := range inames {
+		g.implFact(name, g.implIfaces[name], t, n)
+	}
 	return fmt.Sprint(n)
+}
+
+// implFn: "the dynamic type with this tag implements interface it" as an uninterpreted predicate
+// on type tags; decided for every concrete type whose tag is known to the logic.
+func (g *Gen) implFn(it types.Type) string {
+	name := quote("impl:" + typeKey(it))
+	if g.implIfaces == nil {
+		g.implIfaces = map[string]types.Type{}
+	}
+	if _, ok := g.implIfaces[name]; !ok {
+		g.implIfaces[name] = it
+		g.declFun(name, []Sort{"Int"}, "Bool")
+		for i, t := range g.tagTypes {
+			g.implFact(name, it, t, i+1)
+		}
+	}
+	return name
+}
+
+func (g *Gen) implFact(name string, it, t types.Type, tag int) {
+	g.globalMode++
+	defer func() { g.globalMode-- }()
+	iface, ok := it.Underlying().(*types.Interface)
+	if !ok || types.IsInterface(t) {
+		return
+	}
+	if types.Implements(t, iface) {
+		g.assert(app(name, fmt.Sprint(tag)))
+	} else {
+		g.assert(sNot(app(name, fmt.Sprint(tag))))
+	}
+}
+
+// implements: v is non-nil and its dynamic type implements it.
+func (g *Gen) implements(v string, it types.Type) string {
+	if iface, ok := it.Underlying().(*types.Interface); ok && iface.Empty() {
+		return sNot(sEq(v, "0"))
+	}
+	return sAnd(sNot(sEq(v, "0")), app(g.implFn(it), app("tagOf", v)))
 }
 
 // box / unbox functions for interface values
@@ -482,6 +585,7 @@ type snapshot struct {
 func (g *Gen) snapshot() snapshot { return snapshot{len(g.asserts), len(g.axiomLog), len(g.obls)} }
 func (g *Gen) restore(s snapshot) {
 	g.asserts = g.asserts[:s.nAsserts]
+	g.assertOrigin = g.assertOrigin[:s.nAsserts]
 	for _, k := range g.axiomLog[s.nAxioms:] {
 		delete(g.axiomDone, k)
 	}
@@ -555,6 +659,11 @@ func (g *Gen) smtFile(o *Obligation) string {
 		}
 	}
 	for i := 0; i < o.NAsserts && i < len(g.asserts); i++ {
+		// facts established while executing a block that cannot reach the obligation's block are
+		// about other paths: leaving hypotheses out is sound and keeps the queries small
+		if og := g.assertOrigin[i]; og != nil && o.Block != nil && !g.reaches(og, o.Block) {
+			continue
+		}
 		b.WriteString("(assert " + g.asserts[i] + ")\n")
 	}
 	if o.Hyp != "" && o.Hyp != "true" {
